@@ -182,11 +182,11 @@ CLAIMS = {
              "exception_ptr allocation, the algorithm-specific cancellation paths, flow-graph/pipeline internals and destruction of the library's own task objects are covered by the oracle runs only.",
         ref="4/C03"),
     "C20": dict(
-        technique="Coq proof: exact characterisation of the reachable configurations of the suspend/resume handshake (inductive invariant, all interleavings); real suspend/resume runs with racing resumers under an exactly-once oracle",
+        technique="Coq proof: exact characterisation of the reachable configurations of the suspend/resume handshake (inductive invariant, all interleavings); TRACE CONFORMANCE tie: libtbb compiled under the atomic prelude, every access to m_stack_state of a suspended stack executed and logged under one lock (all threads, seeded delays) and replayed on the model inside Coq (SuspendModel.sconf); real suspend/resume runs with racing resumers, late resumes and waiting threads (plain / isolated) under an exactly-once oracle",
         text="For every interleaving of the suspending thread's exchange(suspended)/self-resume with a resume() from anywhere (incl. the suspend callback itself): at most one resume task is pushed, "
              "none before the suspending thread left the stack, exactly one at quiescence, and the handshake is never stuck (theorems). Real tasks suspend in arenas of 1-8 threads and are resumed from the "
              "callback, a foreign thread with a racing delay, or another task; oracle: one continuation per suspension, no two threads on a stack, wait covers suspended tasks.",
-        note="PARTIAL: the model covers only the m_stack_state handshake and is not tied step by step to the code; stack switching, the resume task's route through the arena, owner recall and arena "
+        note="PARTIAL: the model covers only the m_stack_state handshake (tied by trace conformance on the schedules real threads produce); stack switching, the resume task's route through the arena, owner recall and arena "
              "lifetime are exercised by the oracle runs only.",
         ref="4/C20"),
     "C19": dict(
